@@ -10,6 +10,7 @@ import (
 
 	"verif/mc/internal/common"
 	"verif/mc/internal/drv"
+	"verif/mc/internal/e1"
 	"verif/mc/internal/e3"
 	"verif/mc/internal/e4"
 	"verif/mc/internal/prog"
@@ -176,6 +177,37 @@ func C11(tier common.Tier) int {
 			}
 		}
 	})
+
+	// Parse order: go/packages parses the files of a package concurrently, so which file gets the lower
+	// position range is a scheduling accident of the loader. Both orders are enumerated on programs whose
+	// packages have several files with @ignore markers for the same codes.
+	{
+		ig := e1.IgBases()[0].Clone()
+		for _, f := range ig.Files {
+			n := 0
+			for i := range f.Lines {
+				t := f.Lines[i].Text
+				if (strings.Contains(t, "d.T{}") || strings.Contains(t, " T{}") || strings.Contains(t, ".F = ")) && !strings.Contains(t, "//") && n < 3 {
+					f.Lines[i].Text += " // @ignore CTOR01, IMM01"
+					n++
+				}
+			}
+		}
+		for pi, p := range append([]*prog.Program{ig.Program()}, progs...) {
+			a, err1 := prog.LoadOrder(p, false)
+			b, err2 := prog.LoadOrder(p, true)
+			if err1 != nil || err2 != nil {
+				common.Fatalf("parse-order fixture: %v %v", err1, err2)
+			}
+			ra, rb := prog.Analyze(a, prog.Opts{}), prog.Analyze(b, prog.Opts{})
+			run.State(2, "", fmt.Sprintf("parse-order|%d", pi))
+			if diagText(ra.Diags, "") != diagText(rb.Diags, "") || ra.Panic != rb.Panic {
+				missing, extra := diffKeys(prog.Keys(ra.Diags), prog.Keys(rb.Diags))
+				run.Report(common.Cex{Sig: fmt.Sprintf("parse-order|program=%d|lost=%s|gained=%s", pi, codesOf(missing), codesOf(extra)),
+					Summary: fmt.Sprintf("the diagnostics depend on the order in which the loader parsed the files of a package (position ranges): listed order vs reversed: only in listed order %v, only in reversed %v %s%s", missing, extra, ra.Panic, rb.Panic)})
+			}
+		}
+	}
 
 	// real drivers
 	drv.Binary()
